@@ -11,6 +11,8 @@ import io
 import math
 from fractions import Fraction
 
+from hypothesis import strategies as st
+
 from vt import engine
 from vt.engine import EnumPart, HypPart
 from vt.gen import dlis_logical as L
@@ -392,9 +394,61 @@ def run_subsets(ctx, part, tier, shard, nshards):
         ctx.note('characteristic_subsets', 'all 32 x 32 template x object subsets (minus the ambiguous ones) x %d variants' % (8 if tier == 'thorough' else 2))
 
 
+# ---------------------------------------------------------------------------------------------------------
+# "all scalar and compound representation codes": the codes of RP66V1 Appendix B that the package's RepCode module does not
+# list (FSHORT, FSING1, FSING2, FDOUB1, FDOUB2, CSINGL, CDOUBL, ORIGIN).  One table with one attribute of the code; judged:
+# the file indexes and the table presents the cell with its code and count (the value is not modelled).
+# ---------------------------------------------------------------------------------------------------------
+EXTRA_CODES = {1: ('FSHORT', 2), 3: ('FSING1', 8), 4: ('FSING2', 12), 8: ('FDOUB1', 16), 9: ('FDOUB2', 24), 10: ('CSINGL', 8),
+               11: ('CDOUBL', 16), 25: ('ORIGIN', 1)}
+L.FIXED_SIZE.update({c: n for c, (_nm, n) in EXTRA_CODES.items()})     # the encoder writes these as opaque bytes of the right length
+
+
+@st.composite
+def extra_code_cases(draw):
+    code = draw(st.sampled_from(sorted(EXTRA_CODES)))
+    recs = L._logical_file_records(draw, max_sets=0, allow_encrypted=False)
+    size = EXTRA_CODES[code][1]
+    value = bytes([5]) if code == 25 else bytes([0x3C, 0x00] * (size // 2))      # ORIGIN 5; small positive numbers elsewhere
+    where = draw(st.sampled_from(['template', 'object']))
+    tmpl = [L._plain_attr(b'VAL', code if where == 'template' else 19), L._plain_attr(b'NOTE', 20)]
+    obj = {'name': [1, 0, b'OBJ'], 'attrs': [L._obj_attr([value], code=None if where == 'template' else code), L._obj_attr([b'x'])]}
+    recs.append({'kind': 'set', 'lr_type': 5, 'encrypted': False,
+                 'set': {'role': 'SET', 'type': b'PARAMETER', 'name': None, 'template': tmpl, 'objects': [obj]}})
+    return dict(L._finish_case(draw, recs), extra_code=code)
+
+
+def check_extra_code(case, cc):
+    from TotalDepth.RP66V1.core import LogicalFile
+    code = case['extra_code']
+    phys = [L.physical_record(r) for r in case['records']]
+    data, _pm = L.G.encode_file(case['sul'], phys, case['layouts'], case['vr_caps'])
+    cc.nt(True)
+    cc.cls('extra-code-%d-%s' % (code, EXTRA_CODES[code][0]))
+    try:
+        with LogicalFile.LogicalIndex(engine.handle(data)) as index:
+            lfs = index.logical_files
+            tables = [e.eflr for lf in lfs for e in lf.eflrs]
+    except Exception as err:  # noqa
+        if not engine.sut_frames(err):
+            raise
+        cc.dev('table==encoded', 'representation-code-not-readable', 'a PARAMETER set with an attribute of code %d (%s): indexing raises %r' % (
+            code, EXTRA_CODES[code][0], err))
+        return
+    mine = [t for t in tables if bytes(t.set.type) == b'PARAMETER']
+    if len(lfs) != 1 or len(mine) != 1 or len(mine[0].objects) != 1:
+        cc.dev('table==encoded', 'representation-code-not-readable', 'code %d: the table is not presented (%d logical files, %d PARAMETER tables)' % (
+            code, len(lfs), len(mine)))
+        return
+    attr = mine[0].objects[0].attrs[0]
+    if attr.rep_code != code or attr.count != 1:
+        cc.dev('table==encoded', 'cell-code-or-count', 'code %d: cell presented with code %r count %r' % (code, attr.rep_code, attr.count))
+
+
 def parts(tier):
     return [EnumPart('characteristic-subsets', run_subsets, check_subset),
-            HypPart('logical-files', L.logical_files(), check_file, 2200, 60000)]
+            HypPart('logical-files', L.logical_files(), check_file, 2200, 60000),
+            HypPart('codes-of-the-standard-not-in-the-package', extra_code_cases(), check_extra_code, 80, 800)]
 
 
 def exhaustive_note(tier, total):
